@@ -365,7 +365,7 @@ func c14Bundles(c *Check, ns *nodeSet) {
 }
 
 func runC14(c *Check) {
-	c.Rule = "post-ES2015 constructs (operator table, ~130 lowering templates, statement hazards) x {7 installed Node engines as targets, es2015..es2024} x {plain, minify, iife, esm}: the named engine itself (or the witness engine for an ES year) must parse every output; lexical detectors for features older than the oldest engine and for per-feature supported:true/false overrides; bundles of a CJS+ESM+JSON+dynamic-import graph per target x format x minify (runtime helpers and wrappers); distinct = distinct outputs"
+	c.Rule = "post-ES2015 constructs (operator table, ~130 lowering templates, statement hazards) x {7 installed Node engines as targets, es2015..es2024} x {plain, minify, iife, esm}: the named engine itself (or the witness engine for an ES year) must parse every output; lexical detectors for features older than the oldest engine and for per-feature supported:true/false overrides; bundles of a CJS+ESM+JSON+dynamic-import graph per target x format x minify (runtime helpers and wrappers); distinct = distinct outputs; module-level features (string import/export names, export * as, import.meta, top-level await, import attributes, hashbang) x entry/static/dynamic dependency x formats x splitting x targets; inputs rejected by the newest engine in both goals are skipped"
 	c.Assump = []string{"es2018/es2019 targets are witnessed by Node 10.24, es2020 by Node 14.21, es2021/es2022 by Node 16.20, es2023/es2024 by Node 20.20 (each implements at least that year's syntax, so a valid output always parses)", "es2015-es2017 additionally rely on lexical detectors for async/await, **, for-await, optional catch binding (no engine that old is installed)"}
 	ns := &nodeSet{pools: map[string]*NodePool{}, locks: map[string]*sync.Mutex{}}
 	defer ns.close()
